@@ -20,6 +20,10 @@ use std::panic::{catch_unwind, AssertUnwindSafe};
 
 use bytes::{BufMut, BytesMut};
 use num_bigint::{BigInt, BigUint};
+// the shared helpers (PRNG, trace writer, CLI) of harness/core, compiled into this crate
+#[allow(dead_code)]
+#[path = "../../../core/src/lib.rs"]
+mod svh;
 use svh::{hex, parse_args, unhex, Mode, Rng, Trace};
 use swimos_form::write::StructuralWritable;
 use swimos_form::{Form, Tag};
